@@ -165,7 +165,7 @@ def count_prefixes(ctx, fn):
                 out.append((coll, None))
                 continue
             p = max(dom, key=lambda c: len(b.dominators(c.bb)))
-            out.append((coll, canon(b.pexpr_operand(p.args[1]), 0, 2)))
+            out.append((coll, canon(b.pexpr_operand(p.args[1], 0, frozenset(), (p.bb, "t")), 0, 2)))
     return sorted(out, key=str)
 
 
@@ -201,11 +201,11 @@ def addressed_layout(ctx, fn):
             continue
         last = (c.fn or '').split('::')[-1]
         if last == 'copy_from_slice' and len(c.args) == 2:
-            r = rng(b.pexpr_operand(c.args[0]))
+            r = rng(b.pexpr_operand(c.args[0], 0, frozenset(), (c.bb, "t")))
             if r:
-                out.append((r[0], r[1], terminal(b.pexpr_operand(c.args[1]))))
+                out.append((r[0], r[1], terminal(b.pexpr_operand(c.args[1], 0, frozenset(), (c.bb, "t")))))
         elif last == 'from_le_bytes' and c.args:
-            r = rng(b.pexpr_operand(c.args[0]))
+            r = rng(b.pexpr_operand(c.args[0], 0, frozenset(), (c.bb, "t")))
             if not r:
                 continue
             role = None
@@ -306,7 +306,7 @@ def named_writer(ctx, fn, helpers=(), depth=0):
                 continue
             if not _is_put(c) or len(c.args) < 2:
                 continue
-            e = b.pexpr_operand(c.args[1])
+            e = b.pexpr_operand(c.args[1], 0, frozenset(), (c.bb, "t"))
             names = _leaf_names(e)
             if not names and any(x[0] == 'const' for x in ([e] if e[0] != 'phi' else e[1])):
                 names = _control_field(b, c.bb)
